@@ -362,7 +362,8 @@ def nextEndTokens (E : Env) (st : TState) : List Tok5 :=
     returns (state, tokens, `continue`?, `break`?). -/
 def lineHead (E : Env) (P : Pats) (st : TState) : Except Err (TState × List Tok5 × Bool × Bool) :=
   if !st.endProgs.isEmpty then
-    match handleEndProgs E P st with
+    -- `state.continued = False`: a backslash continuation inside f-string braces ends with its line, too
+    match handleEndProgs E P { st with continued := false } with
     | .error e => .error e
     | .ok (ts, s) => .ok (s, ts, false, false)
   else if st.parenlev = 0 && !st.continued then
